@@ -110,8 +110,23 @@ theorem tlmScan_parts (ts : List TilePart) : ∀ (pre : List Nat) (fuel : Nat),
     rw [e2, e3, ih (pre ++ writeTilePart t) f (fun x hx => hfit x (by simp [hx])) (by simp at hfuel; omega)]
     simp
 
-/-- `writeTLM` on the tile-part writer's output: one segment, `Ltlm = 4 + 6n`, `Ztlm = 0`, `Stlm = 0x60`,
-    and the n entries are exactly `(Isot, Psot)` of the n tile-parts, in order. -/
+theorem tlmSegments_nil (fuel z : Nat) : tlmSegments fuel z [] = [] := by
+  cases fuel <;> simp [tlmSegments]
+
+/-- up to 10921 entries the segment loop of `writeTLM` writes exactly one segment with `Ztlm = 0` -/
+theorem tlmSegments_single (es : List (Nat × Nat)) (h0 : es.length ≠ 0) (h1 : es.length ≤ 10921) :
+    tlmSegments es.length 0 es =
+      be16 MarkerTLM.toNat ++ be16 (u16Of (4 + es.length * 6)) ++ [0, 0x60] ++ (es.flatMap fun e => be16 e.1 ++ be32 e.2) := by
+  cases hl : es.length with
+  | zero => exact absurd hl h0
+  | succ n =>
+    simp only [tlmSegments]
+    rw [if_neg (by omega), List.take_of_length_le (by omega), List.drop_of_length_le (by omega), tlmSegments_nil]
+    simp [hl]
+
+/-- `writeTLM` on the tile-part writer's output (at most 10921 tile-parts, `hn`): one segment, `Ltlm = 4 + 6n`,
+    `Ztlm = 0`, `Stlm = 0x60`, and the n entries are exactly `(Isot, Psot)` of the n tile-parts, in order.
+    (Beyond `hn` the code — since fix htj2k-tlm-length-overflow — and the model continue with further segments.) -/
 theorem writeTLM_parts (ts : List TilePart) (hne : ts ≠ []) (hfit : ∀ t ∈ ts, t.Fits) (hn : 4 + ts.length * 6 < 65536) :
     writeTLM true (writeTileParts ts) =
       .ok ([0xFF, 0x55] ++ be16 (4 + ts.length * 6) ++ [0, 0x60] ++
@@ -127,7 +142,10 @@ theorem writeTLM_parts (ts : List TilePart) (hne : ts ≠ []) (hfit : ∀ t ∈ 
   have hu : u16Of (4 + (ts.length : Int) * 6) = 4 + ts.length * 6 := by
     have := u16Of_small (4 + ts.length * 6) hn
     simpa using this
-  simp [writeTLM, hscan, hl, mTLM, hu, List.flatMap_map]
+  have hseg := tlmSegments_single (ts.map fun t => (t.isot.toNat, t.psot)) (by simpa using hl) (by simp; omega)
+  simp only [List.length_map] at hseg
+  simp [writeTLM, hscan, hl, hseg, mTLM, hu, List.flatMap_map]
+  omega
 
 /-- TOTAL LENGTH (classic code-blocks): main header + Σ Psot + 2 (EOC) -/
 theorem j2k_total_length (p : J2kParams) (info : QcdInfo) (ts : List TilePart) (hht : p.htj2k = false) :
